@@ -6,5 +6,19 @@ print("| change | property | needs, in order to manifest | confirmed (suite gree
 print("|---|---|---|---|---|---|")
 for d in sorted(glob.glob(os.path.join(HERE, "seeded", "*"))):
     m = json.load(open(os.path.join(d, "meta.json")))
+    if m.get("round") == "refactor":
+        continue
+    status = "caught" if m["caught_by_quick_check"] else ("not caught (expected: see history)" if m.get("expect") == "survive" else "MISSED")
     print(f"| `{m['name']}` | {m['property']} | {m['needs_to_manifest']} | {'yes' if m['confirmed'] else 'NO'} | "
-          f"{'caught' if m['caught_by_quick_check'] else 'MISSED'} | {m.get('history', '')} |")
+          f"{status} | {m.get('history', '')} |")
+print()
+print("Behaviour-preserving refactorings (false-alarm test; all 17 quick checks were run against each):")
+print()
+print("| refactoring | owner property | changed lines | suite | alarms raised by any of the 17 checks |")
+print("|---|---|---|---|---|")
+for d in sorted(glob.glob(os.path.join(HERE, "seeded", "*"))):
+    m = json.load(open(os.path.join(d, "meta.json")))
+    if m.get("round") != "refactor":
+        continue
+    c = m["confirmation"]
+    print(f"| `{m['name']}` | {m['property']} | {c.get('changed_lines')} | {c.get('suite')} | {', '.join(m['alarms']) or 'none'} |")
